@@ -126,6 +126,10 @@ pub fn run(ctx: &Ctx) -> usize {
       }
       _ => (crate::windows::sample_day(&mut rng, 1721424 + 500, 5369000), rng.range(0, 86399)),
     };
+    // the reform-seam windows belong to C02's known findings (the lunar date of those civil days is what is wrong there)
+    if crate::windows::in_seam(j) {
+      continue;
+    }
     if k % 6 == 0 {
       // both sides of the same Jie back to back (after it, then before it): the governing Jie must not stick
       for off in [60i64, -60, 2, -2] {
